@@ -169,6 +169,20 @@ def run(M, rec, tier, seed, k, n):
                         rec.count("function_evaluations")
                         ok = compare(rec, f"{st} compact={compact} params={'yes' if keys else 'no'} vs NumPy", desc, xn, twin,
                                      dict(ctx0, vals=vals), magnitudes(desc, vals, pars))
+                        if ok and compact == 0:
+                            # the same function evaluated by name: every value under the documented name of what it belongs to
+                            try:
+                                byn = CC.call_by_name(case, F, vals, more_out)
+                            except Exception as e:
+                                rec.violation(f"{PROP}:{st}:compact=0: the compiled function cannot be evaluated by the documented names ({type(e).__name__})",
+                                              dict(ctx0, vals=vals, exception=repr(e)[:300]))
+                                byn = None
+                            if byn is not None:
+                                rec.count("function_evaluations_by_name")
+                                if keys:
+                                    rec.count("function_evaluations_by_name_with_parameters")
+                                ok = compare(rec, f"{st} compact=0 params={'yes' if keys else 'no'} evaluated by name vs NumPy", desc, byn[0], twin,
+                                             dict(ctx0, vals=vals), magnitudes(desc, vals, pars))
                         if not case.tied:
                             per_type.setdefault((compact, id(vals)), {})[st] = xn
                         if rec.counters["function_evaluations"] == 5:
